@@ -227,6 +227,13 @@ class FxDomain(EventDomain):
                 self.rec_write({(x, 'pay') for (x, k) in o if k in ('obj', 'pay')}, stmt, 'augmented assignment ' + src(stmt)[:60])
                 return ((env, consts),)
             if value is None:
+                rhs = getattr(self, '_unpack_rhs', None)
+                if rhs is not None and not isinstance(stmt, (ast.For, ast.AsyncFor, ast.With)):
+                    # element of a tuple unpacking: it may be any part of the unpacked value
+                    o, p = self.val(rhs, env)
+                    pay = {(x, 'pay') for (x, k) in o if k in ('obj', 'pay')} | p
+                    env = self.put(self.put(env, target.id, set(o)), (target.id, 'pay'), pay - {(x, 'pay') for (x, k) in o})
+                    return ((env, consts),)
                 env = self.put(self.put(env, target.id, set()), (target.id, 'pay'), set())
                 return ((env, consts),)
             o, p = self.val(value, env)
